@@ -13,11 +13,11 @@ NOTES = ("Technique family: runtime monitoring. Every check observes executions 
 _PENDING = "check not built yet in this session (design in DESIGN.md section 6); not claimed until it exists and is silent on the unchanged tree"
 CHECKS = {
     "C05": dict(level="exploration", ref="DESIGN.md section 6 C05",
-                text="Every filtering call of an exhaustive small scope per constraint type (all boxes over a 3-5 value universe, parameter grids) plus seeded random boxes up to arity 6 in both execution modes is judged against an exhaustive hull oracle. Held means: no call among those executed lost a satisfying tuple, grew a domain or reported a false inconsistency. Exploration is the right level: the quantifier is over all boxes, which only sampling beyond the small scope can address at run time.",
+                text="Every filtering call of an exhaustive small scope per constraint type (all boxes over a 3-5 value universe, parameter grids) plus seeded random boxes up to arity 6 in both execution modes is judged against an exhaustive hull oracle. Held means: no call among those executed lost a satisfying tuple, grew a domain or reported a false inconsistency. Exploration is the right level: the quantifier is over all boxes, which only sampling beyond the small scope can address at run time. Boxes beyond the enumeration limit (arity <= 12, width <= 9) are judged by sampled forms of the same oracle (every report is a concrete tuple).",
                 note="trusts O-sem (framework/oracles.py) as the reading of the documented relations and the parameter contract of DESIGN.md section 4; exhaustive only inside the listed scope",
                 technique="runtime oracle on real propagator calls (exhaustive small scope + random), hull by enumeration"),
     "C06": dict(level="exploration", ref="DESIGN.md section 6 C06",
-                text="All instantiated tuples over a small universe per type x parameter grid (exhaustive for arity <= 3-4) and every observed call that collapses a box to a point: status must be inconsistency iff the ground relation is false (circuit constraints on permutations only).",
+                text="All instantiated tuples over a small universe per type x parameter grid (exhaustive for arity <= 3-4) and every observed call that collapses a box to a point: status must be inconsistency iff the ground relation is false (circuit constraints on permutations only). Through the engine on large planted models: with every variable fixed the satisfying point is delivered and a violating neighbour is not.",
                 note="trusts O-sem; point scope exhaustive only for the listed arities/universes",
                 technique="runtime oracle on real propagator calls over all ground tuples of a small scope + random collapse cases"),
     "C14": dict(level="exploration", ref="DESIGN.md section 6 C14",
@@ -29,27 +29,27 @@ NOT_APPLICABLE = {p: _PENDING for p in ["C%02d" % i for i in range(1, 21)] if p 
 
 CHECKS.update({
     "C01": dict(level="exploration", ref="DESIGN.md section 6 C01",
-                text="Every vector yielded or returned by the real solvers on thousands of random in-contract models x configurations (both modes, constraint types also posted alone, the multiprocessing solver through real forked workers) is checked in full against the declared domains, the alias offsets and the ground semantics of every posted constraint.",
+                text="Every vector yielded or returned by the real solvers on thousands of random in-contract models x configurations (both modes, constraint types also posted alone, the multiprocessing solver through real forked workers) is checked in full against the declared domains, the alias offsets and the ground semantics of every posted constraint. Beyond the brute-force scope, large models built around a planted assignment (8-40 variables, arity <= 14, compiled mode under a logical pass budget) are solved and every delivered vector checked the same way.",
                 note="trusts O-sem and the parameter contract; models small (<= 6000/20000 points) so that the same runs also feed C02/C03",
                 technique="runtime checker at the solver API boundary evaluating every returned solution against independent ground semantics"),
     "C02": dict(level="exploration", ref="DESIGN.md section 6 C02",
-                text="The multiset of solutions yielded by exhaustive enumeration on the real solver is compared with an independent brute-force enumeration for random models x random configurations x constraint permutations in both modes; termination is decided by logical step budgets on plane A.",
+                text="The multiset of solutions yielded by exhaustive enumeration on the real solver is compared with an independent brute-force enumeration for random models x random configurations x constraint permutations in both modes; termination is decided by logical step budgets on plane A. Beyond the brute-force scope, large planted models partially fixed to the planted assignment must deliver it in every completed enumeration, without duplicates.",
                 note="trusts O-brute/O-sem; models limited to <= 6000/20000 points",
                 technique="differential runtime oracle: real enumeration vs brute-force enumeration of the domain product"),
     "C03": dict(level="exploration", ref="DESIGN.md section 6 C03",
-                text="minimize/maximize results on random models (objective with/without constraints, with/without offset, both directions) are compared with the brute-force optimum; a history monitor inside the interpreted engine checks the improve/reset/tighten protocol; the multiprocessing reducer is run against all interleavings of real worker streams (shim) and real processes.",
+                text="minimize/maximize results on random models (objective with/without constraints, with/without offset, both directions) are compared with the brute-force optimum; a history monitor inside the interpreted engine checks the improve/reset/tighten protocol; the multiprocessing reducer is run against all interleavings of real worker streams (shim) and real processes. On large planted models a completed optimisation must be valid and at least as good as the planted assignment.",
                 note="trusts O-brute; restart budget = objective width + 3",
                 technique="differential oracle on results + online history monitor on hooked restart/tighten events"),
     "C04": dict(level="exploration", ref="DESIGN.md section 6 C04",
-                text="Termination restated as bounded progress: monitors inside the interpreted engine count constraint executions per pass, executed lines per propagator call (sys.monitoring), choices, backtracks, probes and restarts against combinatorial bounds and raise out of the engine when exceeded; compiled runs are watched by a parent-side stall watchdog whose firing is replayed under the budgets rather than taken as a verdict.",
+                text="Termination restated as bounded progress: monitors inside the interpreted engine count constraint executions per pass, executed lines per propagator call (sys.monitoring), choices, backtracks, probes and restarts against combinatorial bounds and raise out of the engine when exceeded; compiled runs are watched by a parent-side stall watchdog whose firing is replayed under the budgets rather than taken as a verdict. Single filtering calls of every type on random boxes up to arity 12 run under the same line budget (interpreted) and watchdog (compiled).",
                 note="no finite run decides an unbounded 'eventually'; budgets carry a x4 safety factor; exploration over random models",
                 technique="runtime step-budget monitors (logical, not wall-clock) inside the real engine"),
     "C07": dict(level="exploration", ref="DESIGN.md section 6 C07",
-                text="Every entailment answer observed (exhaustive small scope + random boxes, 12 types) is validated by enumerating the returned box; in real searches a flag monitor checks copy-on-push, exact restore on pop and that flags are cleared only by an entailment answer of that constraint; a differential run with entailment downgraded must give the same solutions.",
+                text="Every entailment answer observed (exhaustive small scope + random boxes, 12 types) is validated by enumerating the returned box; in real searches a flag monitor checks copy-on-push, exact restore on pop and that flags are cleared only by an entailment answer of that constraint; a differential run with entailment downgraded must give the same solutions. Entailment answers on boxes beyond the enumeration limit are attacked by sampled and corner tuples.",
                 note="trusts O-sem; boxes > 20000 points are skipped and counted as such",
                 technique="runtime oracle on entailment answers + stack-row invariant monitor + metamorphic downgrade run"),
     "C08": dict(level="exploration", ref="DESIGN.md section 6 C08",
-                text="Around every propagation pass of real searches (interpreted): shrink/non-empty invariants, re-execution of every enabled constraint through the real propagator, comparison with an independent greatest-fixpoint computation for exact-BC models, under the real and 3-5 injected adversarial wake-up orders; plus a direct trigger-sufficiency test per constraint type.",
+                text="Around every propagation pass of real searches (interpreted): shrink/non-empty invariants, re-execution of every enabled constraint through the real propagator, comparison with an independent greatest-fixpoint computation for exact-BC models, under the real and 3-5 injected adversarial wake-up orders; plus a direct trigger-sufficiency test per constraint type. The event x watcher matrix also moves bounds through the shaving algorithm (a gadget that only a probe refutes); a compiled in-engine probe re-executes every constraint after every pass, also on large planted models (arity <= 14).",
                 note="schedule space sampled; O-fix only for small domains; order independence asserted only for exact-BC models",
                 technique="invariant-at-hook monitor on every pass + schedule injection at the queue pop + reference fixpoint"),
     "C09": dict(level="exploration", ref="DESIGN.md section 6 C09",
@@ -57,11 +57,11 @@ CHECKS.update({
                 note="unit scope exhaustive for the listed shapes; in-search part sampled",
                 technique="pre/post-condition monitors on heuristic calls and backtracks (unit harness + in-search hooks)"),
     "C10": dict(level="exploration", ref="DESIGN.md section 6 C10",
-                text="Around every call of the shaving algorithm in real searches: stack height, shrink, containment in what the real plain BC returns from the same entry state, no brute-force solution removed; every successful probe re-derived independently, every failed probe undone exactly; solver-level results equal brute force.",
+                text="Around every call of the shaving algorithm in real searches: stack height, shrink, containment in what the real plain BC returns from the same entry state, no brute-force solution removed; every successful probe re-derived independently, every failed probe undone exactly; solver-level results equal brute force. The same probes and the planted-assignment completeness test run with shaving on large models.",
                 note="reference BC is the real BC run on private copies; solutions from O-brute",
                 technique="invariant-at-hook monitor with reference-model comparison (real BC / brute force)"),
     "C17": dict(level="exploration", ref="DESIGN.md section 6 C17",
-                text="Each of the 13 counters is compared with the monitor's own count of its defining event at every delivered solution and at the end of enumeration and optimisation runs (interpreted); conservation laws are checked in both modes; multiprocessing totals against per-worker sums under all interleavings.",
+                text="Each of the 13 counters is compared with the monitor's own count of its defining event at every delivered solution and at the end of enumeration and optimisation runs (interpreted); conservation laws are checked in both modes; multiprocessing totals against per-worker sums under all interleavings. The laws are also checked on large compiled models.",
                 note="exactness in compiled mode is inherited through C15 (identical statistics in both modes)",
                 technique="shadow counters on hooked events compared with reported statistics + conservation laws"),
 })
@@ -78,15 +78,15 @@ CHECKS.update({
                 note="interval arithmetic exhaustive in the stated scope; solution-set part sampled",
                 technique="post-condition monitor on split (exhaustive small scope) + differential union check"),
     "C13": dict(level="exploration", ref="DESIGN.md section 6 C13",
-                text="Metamorphic relations (de-aliasing, constraint/variable permutation, duplicated constraint, always-true constraint, translation) are checked between real solver runs on random models in both modes and on the shipped models at sizes far beyond brute force.",
+                text="Metamorphic relations (de-aliasing, constraint/variable permutation, duplicated constraint, always-true constraint, translation) are checked between real solver runs on random models in both modes and on the shipped models at sizes far beyond brute force. Rewrites include permuting the arguments of order-insensitive constraints; a focus stream posts one shared domain at several positions of the same constraint.",
                 note="relations need no oracle; cost-based heuristics replaced by generic ones in rewritten models",
                 technique="metamorphic runtime monitor comparing solution multisets and optima of rewritten models"),
     "C18": dict(level="fault_enumeration", ref="DESIGN.md section 6 C18",
-                text="The fault space worker x number of workers (1-4) x death point (before first message, before/after each solution message, before the completion marker) x manner (SIGKILL, os._exit, exception) x operation is enumerated on two small models with real forked workers; a structural oracle (no producer alive and caller inside Queue.get(timeout=None), or 60 s without return after the last death) decides 'blocked forever'. Quick runs a seeded subset of 128 cases, thorough all 1080.",
+                text="The fault space worker x number of workers (1-4) x death point (before first message, before/after each solution message, before the completion marker) x manner (SIGKILL, os._exit, exception) x operation is enumerated on two small models with real forked workers; a structural oracle (no producer alive and caller inside Queue.get(timeout=None), or 60 s without return after the last death) decides 'blocked forever'. Quick runs a seeded subset of 128 cases, thorough all 1080. A second grid kills a worker, lets a survivor's message arrive after the death and keeps all survivors alive and silent for 70 s: the caller must return or raise within 25 s of the death.",
                 note="complete for the small models used, not for all problems; crash points are made well defined by flushing the worker's feeder thread first",
                 technique="fault injection at enumerated crash points in real worker processes + structural deadlock oracle"),
     "C20": dict(level="exploration", ref="DESIGN.md section 6 C20",
-                text="Each of the 14 shipped model families is solved over a size sweep and several configurations in compiled mode; every solution goes through an independent definition-level validator, counts and optima are compared with literature values or own enumerations (Held-Karp, subset DP, ruler search, sum-free colourings, backtracking sudoku), and symmetry-breaking variants are related to the plain models.",
+                text="Each of the 14 shipped model families is solved over a size sweep and several configurations in compiled mode; every solution goes through an independent definition-level validator, counts and optima are compared with literature values or own enumerations (Held-Karp, subset DP, ruler search, sum-free colourings, backtracking sudoku), and symmetry-breaking variants are related to the plain models. Completeness at definition level: symmetric images (relabelling, dihedral, row/column/box permutations) of delivered solutions that the validator accepts must be delivered by the model without symmetry breaking, and are accepted when presented ground.",
                 note="validators know each model's variable layout; literature constants listed in evidence assumptions",
                 technique="definition-level validators and independent reference solvers applied to every produced object"),
 })
@@ -108,7 +108,7 @@ CHECKS.update({
                 note="only differences visible in outputs or statistics are seen; each axis is a separate child process because the mode is read at import time",
                 technique="trace recorder at the API boundary + cross-process/mode/history trace comparison"),
     "C16": dict(level="exploration", ref="DESIGN.md section 6 C16",
-                text="In-contract workloads run under a source-level bounds sanitizer (import hook rewriting every non-literal subscript of nucs, 643 sites, flags out-of-range, computed negative and clamped-slice indices), under numba's bounds-check build with an unraisable-exception hook that halts on the first report, and with red-zone canaries around the stacks; the evidence lists reached / instrumented sites and the unreached ones.",
+                text="In-contract workloads run under a source-level bounds sanitizer (import hook rewriting every non-literal subscript of nucs, 643 sites, flags out-of-range, computed negative and clamped-slice indices), under numba's bounds-check build with an unraisable-exception hook that halts on the first report, and with red-zone canaries around the stacks; the evidence lists reached / instrumented sites and the unreached ones. Large planted models (arity <= 14) run in the bounds-check build.",
                 note="a clean run is not memory safety: only reached sites with the index values that occurred; compiled-mode negative wrap-around is inferred from the interpreted sanitizer on the same source",
                 technique="bounds sanitizers: AST-instrumented interpretation + NUMBA_BOUNDSCHECK build + red-zone canaries"),
 })
